@@ -795,6 +795,7 @@ fn run_case(args: &Args, case_seed: u64, rep: &mut Report) {
         let open_len = file_len(&ch.path);
         let coord = new_coordinator(wal);
         let mut known: Model = BTreeMap::new();
+        let mut restart_garbage = false;
         if epoch > 0 {
             let bytes = std::fs::read(&ch.path).unwrap_or_default();
             let (recs, garbage) = logical_log(&bytes, bytes.len(), &ch.seg_starts);
@@ -809,6 +810,7 @@ fn run_case(args: &Args, case_seed: u64, rep: &mut Report) {
             let log = describe(&recs, &ch.names, &ch.vote_accept);
             rep.eval(hash_combine(hash_str(&log), 0xC4A1), is_nontrivial(&model));
             rep.count("chain_restarts", 1);
+            restart_garbage = garbage;
             if garbage {
                 rep.count("restarts_with_unrepaired_torn_tail", 1);
             }
@@ -859,7 +861,10 @@ fn run_case(args: &Args, case_seed: u64, rep: &mut Report) {
         {
             let (recs, garbage) = logical_log(&bytes, total, &ch.seg_starts);
             let log = describe(&recs, &ch.names, &ch.vote_accept);
-            let _ = garbage; // what a live coordinator accepts does not depend on how the log reads back
+            // what this coordinator accepted depends on what it could read at its restart: if the
+            // log then had a torn record with records behind it, it never saw those outcomes
+            let _ = garbage;
+            let found: Vec<Found> = found.into_iter().map(|f| classify(restart_garbage, &[], f)).collect();
             report(found, rep, case_seed, epoch, total, "live", &log);
             if rep.want_sample() && epoch == 0 && recs.len() >= 8 {
                 rep.sample(json!({"case_seed": case_seed, "epoch0_log": log, "bytes": total, "crashes": crashes}));
